@@ -10,24 +10,27 @@ EXTENDS Wire, TLC, Json
 
 CONSTANTS MaxNK, MaxRecs
 
-VARIABLES tlvkind, nk, tid, fixed, recs, tail, dirty
-vars == <<tlvkind, nk, tid, fixed, recs, tail, dirty>>
+VARIABLES tlvkind, nk, tid, fixed, inner, recs, tail, dirty
+vars == <<tlvkind, nk, tid, fixed, inner, recs, tail, dirty>>
 
-Msg == [opaque |-> FALSE, tlvkind |-> tlvkind, nk |-> nk, tid |-> tid, fixed |-> fixed,
+Msg == [opaque |-> FALSE, tlvkind |-> tlvkind, nk |-> nk, tid |-> tid, fixed |-> fixed, inner |-> inner,
         recs |-> recs, tail |-> tail]
 
 Init ==
   /\ recs = <<>> /\ dirty = FALSE
-  /\ \/ /\ tlvkind = TRUE /\ nk \in 0..MaxNK /\ tid = "known" /\ fixed \in FixedClass /\ tail = "none"
-     \/ /\ tlvkind = FALSE /\ nk = 0 /\ tid = "known"
+  /\ \/ /\ tlvkind = TRUE /\ nk \in 0..MaxNK /\ tid = "known" /\ fixed \in FixedClass /\ tail = "none" /\ inner = "none"
+     \/ /\ tlvkind = FALSE /\ nk = 0 /\ tid = "known" /\ inner = "none"
         /\ \/ fixed \in FixedClass /\ tail = "none"
            \/ fixed = "complete" /\ tail \in {"excess", "garbage"}
-     \/ /\ tlvkind \in BOOLEAN /\ nk = 0 /\ tid \in TidClass \ {"known"} /\ fixed = "complete" /\ tail = "none"
+     \/ /\ tlvkind \in BOOLEAN /\ nk = 0 /\ tid \in TidClass \ {"known"} /\ fixed = "complete" /\ tail = "none" /\ inner = "none"
+     \* inner declared lengths (the engine derives the element boundaries from its own builders)
+     \/ /\ tlvkind \in BOOLEAN /\ nk = 0 /\ tid = "known" /\ fixed = "complete" /\ tail = "none"
+        /\ inner \in InnerClass \ {"none"}
 
-Open == tlvkind /\ tid = "known" /\ fixed = "complete" /\ tail = "none" /\ Len(recs) < MaxRecs
+Open == tlvkind /\ tid = "known" /\ fixed = "complete" /\ inner = "none" /\ tail = "none" /\ Len(recs) < MaxRecs
 
 Add(r) == /\ recs' = Append(recs, r)
-          /\ UNCHANGED <<tlvkind, nk, tid, fixed, tail>>
+          /\ UNCHANGED <<tlvkind, nk, tid, fixed, inner, tail>>
 
 AddKnown ==
   /\ Open /\ \E i \in 1..nk : Add([t |-> KnownT(i), enc |-> "min", fit |-> "exact", val |-> "ok"])
@@ -52,21 +55,21 @@ AddBadValue ==
   /\ \E i \in 1..nk : Add([t |-> KnownT(i), enc |-> "min", fit |-> "exact", val |-> "bad"])
   /\ dirty' = TRUE
 CutTail ==
-  /\ tlvkind /\ tid = "known" /\ fixed = "complete" /\ tail = "none" /\ ~dirty
+  /\ tlvkind /\ tid = "known" /\ fixed = "complete" /\ inner = "none" /\ tail = "none" /\ ~dirty
   /\ tail' \in {"partial_type", "type_only", "partial_len"}
-  /\ UNCHANGED <<tlvkind, nk, tid, fixed, recs, dirty>>
+  /\ UNCHANGED <<tlvkind, nk, tid, fixed, inner, recs, dirty>>
 
 Next == AddKnown \/ AddUnknownOdd \/ AddUnknownEven \/ AddNonMinimal \/ AddOverrun \/ AddBadValue \/ CutTail
 Spec == Init /\ [][Next]_vars
 
 TypeOK == /\ \A i \in 1..Len(recs) : WellFormedRec(recs[i], nk)
-          /\ tid \in TidClass /\ fixed \in FixedClass /\ tail \in TailClass
+          /\ tid \in TidClass /\ fixed \in FixedClass /\ tail \in TailClass /\ inner \in InnerClass
 
 Agree == Verdict(Msg) = RuleVerdict(Msg)
 
 Prefix(k) == [Msg EXCEPT !.recs = SubSeq(recs, 1, k), !.tail = "none"]
 PrefixClosed ==
-  (tlvkind /\ tid = "known" /\ fixed = "complete") =>
+  (tlvkind /\ tid = "known" /\ fixed = "complete" /\ inner = "none") =>
      /\ (Verdict(Msg) = "accept" => \A k \in 0..Len(recs) : Verdict(Prefix(k)) = "accept")
      \* an accepted stream decodes to the presence subset it carries; each known TLV at most once
      /\ (Verdict(Msg) = "accept" =>
